@@ -330,32 +330,42 @@ impl RtpsReaderProxy {
       );
   }
 
-  pub fn mark_frags_requested(&mut self, seq_num: SequenceNumber, frag_nums: &FragmentNumberSet) {
+  // Mark the fragments listed in a NACKFRAG as requested.
+  // frag_count is the number of fragments in the sample, as known by the Writer.
+  // Requests for fragments outside 1..=frag_count are ignored.
+  pub fn mark_frags_requested(
+    &mut self,
+    seq_num: SequenceNumber,
+    frag_nums: &FragmentNumberSet,
+    frag_count: u32,
+  ) {
+    let frag_count = usize::try_from(frag_count).unwrap_or(0);
+    let valid_frag_nums: Vec<usize> = frag_nums
+      .iter()
+      .map(usize::from)
+      .filter(|f| 1 <= *f && *f <= frag_count)
+      .collect();
+    if valid_frag_nums.is_empty() {
+      warn!(
+        "mark_frags_requested: No valid fragment numbers in NackFrag. reader={:?} SN={:?}",
+        self.remote_reader_guid, seq_num
+      );
+      return;
+    }
+
     let req_set = self
       .frags_requested
       .entry(seq_num)
-      .or_insert_with(|| BitVec::with_capacity(64)); // default capacity out of hat
-
-    if let Some(max_fn_requested) = req_set.iter().next_back() {
-      // allocate more space if needed
-      let max_fn_requested = usize::from(max_fn_requested);
-      if max_fn_requested > req_set.len() {
-        let growth_need = max_fn_requested - req_set.len();
-        req_set.grow(growth_need, false);
-      }
-      for f in frag_nums.iter() {
-        // -1 because FragmentNumbers start at 1
-        req_set.set(usize::from(f) - 1, true);
-      }
-    } else {
-      warn!(
-        "mark_frags_requested: Empty set in NackFrag??? reader={:?} SN={:?}",
-        self.remote_reader_guid, seq_num
-      );
+      .or_insert_with(|| BitVec::from_elem(frag_count, false));
+    if req_set.len() < frag_count {
+      let growth_need = frag_count - req_set.len();
+      req_set.grow(growth_need, false);
+    }
+    for f in valid_frag_nums {
+      req_set.set(f - 1, true);
     }
   }
 
-  // This just removes the FragmentNumber entry from the set.
   pub fn mark_frag_sent(&mut self, seq_num: SequenceNumber, frag_num: &FragmentNumber) {
     let mut frag_map_emptied = false;
     if let Some(frag_map) = self.frags_requested.get_mut(&seq_num) {
